@@ -43,14 +43,7 @@ Definition checkS (c : case_t) : bool :=
   | CMask coords wc w p vs o => mres_matches (spec_mask coords wc w p vs) o
   end.
 
-(* 0 = proved domain; 1 = binary operator outside dom_var (masked operand cell, or masked-typed
-   operands with a domained operator at a zero divisor / non-finite result); 2 = mask(dims=list);
-   3 = mask(values=non-integral) with an integer variable *)
-Definition region (c : case_t) : nat :=
-  match c with
-  | CBin cls coords vs _ => if forallb (dom_var cls coords) vs then 0 else 1
-  | CMask coords wc w p vs _ =>
-      if existsb (int_values_var coords wc p) vs then 3 else if dims_is_list w then 2 else 0
-  end.
+(* no known-defect region is left after the repairs *)
+Definition region (c : case_t) : nat := 0.
 
 Definition check (c : case_t) : verdict := (checkF c, checkS c, region c).
